@@ -154,6 +154,9 @@ pub struct Case {
     /// curve tolerance (0 = as listed)
     #[serde(default)]
     pub nudge: f64,
+    /// curve tolerance: 0 = the default 1e-9 * scale, negative = exactly zero, positive = this factor of scale
+    #[serde(default)]
+    pub ctol: f64,
 }
 
 struct Src {
@@ -350,9 +353,14 @@ fn wrap<T>(f: impl FnOnce() -> std::result::Result<T, String>) -> std::result::R
 }
 
 pub fn judge(case: &Case, l: &mut Local) {
-    let tol = 1e-9 * case.scale;
+    let tol = if case.ctol < 0.0 { 0.0 } else if case.ctol > 0.0 { case.ctol * case.scale } else { 1e-9 * case.scale };
     let eps = 1e-9 * case.scale * 3.0;
     let op = case.op.as_str();
+    if case.ctol < 0.0 {
+        l.bucket("curve tolerance exactly zero");
+    } else if case.ctol > 0.0 {
+        l.bucket("coarse curve tolerance, finer simplification");
+    }
     if case.dim == 2 {
         let mut pts: Vec<Point2> = case.verts.iter().map(|c| gen::p2([c[0], c[1]], case.scale)).collect();
         if case.nudge != 0.0 {
@@ -471,7 +479,7 @@ pub fn cases(tier: Tier) -> Vec<Case> {
                     if fc && (op == "rdp" || op == "fillgaps") {
                         continue;
                     }
-                    out.push(Case { dim: 2, verts: verts.clone(), force_closed: fc, scale: *scale, op: op.into(), param, nudge: 0.0 });
+                    out.push(Case { dim: 2, verts: verts.clone(), force_closed: fc, scale: *scale, op: op.into(), param, nudge: 0.0, ctol: 0.0 });
                 }
             }
         }
@@ -488,7 +496,37 @@ pub fn cases(tier: Tier) -> Vec<Case> {
                 if op == "rdp" || op == "fillgaps" {
                     continue;
                 }
-                out.push(Case { dim: 2, verts: verts.clone(), force_closed: false, scale, op: op.into(), param, nudge: 0.5 });
+                out.push(Case { dim: 2, verts: verts.clone(), force_closed: false, scale, op: op.into(), param, nudge: 0.5, ctol: 0.0 });
+            }
+        }
+    }
+    let lat3 = gen::lattice3(3);
+    // curves whose tolerance is exactly zero (closedness and de-duplication decided by exact equality), and
+    // curves built with a coarse tolerance that are simplified with a finer one
+    for s in gen::seqs(lat2.len(), 2, 4) {
+        let verts: Vec<Vec<i32>> = s.iter().map(|i| lat2[*i].to_vec()).collect();
+        for (op, param) in requests() {
+            if op == "rdp" || op == "fillgaps" {
+                continue;
+            }
+            for fc in [false, true] {
+                for scale in [0.25, 1.0] {
+                    out.push(Case { dim: 2, verts: verts.clone(), force_closed: fc, scale, op: op.into(), param, nudge: 0.0, ctol: -1.0 });
+                }
+                if op == "simplify" {
+                    out.push(Case { dim: 2, verts: verts.clone(), force_closed: fc, scale: 1.0, op: op.into(), param, nudge: 0.0, ctol: 0.05 });
+                }
+            }
+        }
+    }
+    for s in gen::seqs(lat3.len(), 2, 3) {
+        let verts: Vec<Vec<i32>> = s.iter().map(|i| lat3[*i].to_vec()).collect();
+        for (op, param) in requests() {
+            if op == "simplify" {
+                out.push(Case { dim: 3, verts: verts.clone(), force_closed: false, scale: 1.0, op: op.into(), param, nudge: 0.0, ctol: 0.05 });
+                out.push(Case { dim: 3, verts: verts.clone(), force_closed: false, scale: 1.0, op: op.into(), param, nudge: 0.0, ctol: 0.6 });
+            } else if op != "rdp" && op != "fillgaps" {
+                out.push(Case { dim: 3, verts: verts.clone(), force_closed: false, scale: 1.0, op: op.into(), param, nudge: 0.0, ctol: -1.0 });
             }
         }
     }
@@ -498,11 +536,10 @@ pub fn cases(tier: Tier) -> Vec<Case> {
             let mut verts: Vec<Vec<i32>> = s.iter().map(|i| lat2[*i * 2].to_vec()).collect();
             verts.insert(rep, verts[rep].clone());
             for e in [1e-6, 0.8] {
-                out.push(Case { dim: 2, verts: verts.clone(), force_closed: false, scale: 1.0, op: "rdp".into(), param: e, nudge: 0.0 });
+                out.push(Case { dim: 2, verts: verts.clone(), force_closed: false, scale: 1.0, op: "rdp".into(), param: e, nudge: 0.0, ctol: 0.0 });
             }
         }
     }
-    let lat3 = gen::lattice3(3);
     for s in gen::seqs(lat3.len(), 2, 3) {
         let verts: Vec<Vec<i32>> = s.iter().map(|i| lat3[*i].to_vec()).collect();
         let sc: &[f64] = match tier {
@@ -511,7 +548,7 @@ pub fn cases(tier: Tier) -> Vec<Case> {
         };
         for scale in sc {
             for (op, param) in requests() {
-                out.push(Case { dim: 3, verts: verts.clone(), force_closed: false, scale: *scale, op: op.into(), param, nudge: 0.0 });
+                out.push(Case { dim: 3, verts: verts.clone(), force_closed: false, scale: *scale, op: op.into(), param, nudge: 0.0, ctol: 0.0 });
             }
         }
     }
@@ -522,7 +559,7 @@ pub fn run(tier: Tier) -> i32 {
     let mut cx = Ctx::new("C05", tier, "exploration");
     cx.rule = "every vertex sequence over the 3x3 / 3x3x3 lattice up to the length bound x {open, force-closed} x scales straddling one unit of total length x the request menu (counts, spacings, max spacings, simplify/RDP tolerances, gap maxima); reference model: arc-length point function by linear scan and brute-force segment distance. distinct = distinct source curves".into();
     cx.bounds = json!({"seq_len_2d": tier.pick(4, 5), "seq_len_3d": 3, "scales": [1e-3, 0.25, 1.0, 7.3, 1e3], "requests": requests().iter().map(|(o, p)| format!("{}:{}", o, p)).collect::<Vec<_>>()});
-    cx.require(&["simple source", "self-touching source", "closed source", "source closed only within the tolerance", "open source", "3D source", "total length below one unit", "total length above one unit", "count", "spacing", "maxspacing", "simplify", "rdp", "fillgaps"]);
+    cx.require(&["simple source", "self-touching source", "closed source", "source closed only within the tolerance", "open source", "3D source", "total length below one unit", "total length above one unit", "count", "spacing", "maxspacing", "simplify", "rdp", "fillgaps", "curve tolerance exactly zero", "coarse curve tolerance, finer simplification"]);
     cx.assume("closed curves: requests that cannot leave three distinct positions may be rejected with Err (gray)");
     cx.assume("resampling clauses are judged on simple sources only (no two non-adjacent edges touch, no fold-back): on a self-overlapping polyline samples coincide and are merged, so span and spacing are not well defined; simplify, RDP and gap filling are judged on every source");
     let cs = cases(tier);
